@@ -26,7 +26,7 @@ use zipora::memory::{
 };
 
 const HEADER: &str = r#"From ZV.Common Require Import Base Run.
-From ZV.C08 Require Import Model ModelFixedCap ModelSecure Cases.
+From ZV.C08 Require Import Model ModelFixedCap ModelSecure ModelMemPool Cases.
 Open Scope N_scope.
 (* the case types and the functions that run the models on them are in coq/C08/Cases.v *)
 Definition case_t : Type := xcase.
@@ -266,6 +266,10 @@ struct RunOut {
     order: Vec<u64>,
     /// for every entry of `eff`: the number of notes logged before that turn
     eff_notes: Vec<usize>,
+    /// for every entry of `eff`: the schedule point the thread was parked at before the turn (None: between operations)
+    eff_site: Vec<Option<u32>>,
+    /// for every entry of `eff`: the block an allocation that completed in this turn returned
+    eff_result: Vec<Option<u64>>,
     fails: Vec<(Option<String>, String)>,
     exit_info: Vec<Vec<u64>>,
     aborted: bool,
@@ -296,7 +300,7 @@ fn controlled_run<C: Cell>(
         handles.push(std::thread::Builder::new().stack_size(1 << 20).spawn(move || worker(c, b, t)).unwrap());
     }
     let mut out = RunOut {
-        eff: vec![], notes: vec![], held: vec![vec![]; n], ever: BTreeSet::new(), order: vec![], eff_notes: vec![], fails: vec![], exit_info: vec![vec![]; n],
+        eff: vec![], notes: vec![], held: vec![vec![]; n], ever: BTreeSet::new(), order: vec![], eff_notes: vec![], eff_site: vec![], eff_result: vec![], fails: vec![], exit_info: vec![vec![]; n],
         aborted: false, allocs_ok: 0, frees: 0, alloc_calls: 0,
     };
     let mut owner: HashMap<u64, usize> = HashMap::new();
@@ -351,6 +355,8 @@ fn controlled_run<C: Cell>(
         }
         out.eff.push((t, cm));
         out.eff_notes.push(out.notes.len());
+        out.eff_site.push(if mid { site } else { None });
+        out.eff_result.push(None);
         if !baton.give(t) {
             out.fails.push((None, format!("thread {} did not reach a schedule point within 10 s", t)));
             hung = true;
@@ -379,6 +385,7 @@ fn controlled_run<C: Cell>(
                         out.fails.push((None, format!("block {} handed to thread {} while thread {} owns it", b, t, o)));
                     }
                     owner.insert(b, t);
+                    if let Some(r) = out.eff_result.last_mut() { *r = Some(b); }
                     if out.ever.insert(b) { out.order.push(b); }
                     out.held[t].push(b);
                 }
@@ -587,7 +594,7 @@ fn parse_case(c: &Value) -> (String, usize, usize, Vec<Vec<Op>>, Vec<usize>) {
 fn norm_site(site: u32) -> u64 {
     // 11..16 / 31..35 -> 1..6 (pop), 21..24 / 41..44 -> 11..14 (push)
     let d = (site % 10) as u64;
-    match site / 10 { 1 | 3 | 5 | 7 => d, _ => 10 + d }
+    match site / 10 { 1 | 3 | 5 | 7 | 9 => d, _ => 10 + d }
 }
 
 fn emit_coq(cx: &mut Ctx, kind: u32, bsize: u64, cap: u64, n: usize, out: &RunOut, fin: [u64; 3], free: &Option<Vec<u64>>, stats: &[u64], zero_size: Option<u64>, cj: &Value, force: bool) {
@@ -988,6 +995,99 @@ fn run_sp(cx: &mut Ctx, cache: usize, preset: u64, progs: &[Vec<Op>], sched: &[u
     cx.shards.push(term, c2);
 }
 
+struct MpCell { pool: MemoryPool, csize: usize }
+impl Cell for MpCell {
+    type H = NonNull<u8>;
+    fn alloc(&self) -> Result<(Self::H, u64), String> {
+        match self.pool.allocate() { Ok(p) => Ok((p, p.as_ptr() as usize as u64)), Err(e) => Err(e.to_string()) }
+    }
+    fn free(&self, h: Self::H) { let _ = self.pool.deallocate(h); }
+    fn scribble(&self, h: &mut Self::H, v: u64) { unsafe { std::ptr::write_bytes(h.as_ptr(), v as u8, self.csize); } }
+}
+unsafe impl Send for MpCell {}
+unsafe impl Sync for MpCell {}
+
+/// MemoryPool (pool.rs) under a controlled schedule: threads are parked before try_lock, under the queue lock,
+/// before the miss / direct-release paths and before the byte accounting.  Oracle: ownership, and at quiescence the
+/// byte accounting, the counters, the capacity and the pooled chunks; every run is replayed on coq/C08/ModelMemPool.v.
+fn run_mp(cx: &mut Ctx, csize: usize, maxc: usize, progs: &[Vec<Op>], sched: &[usize], force: bool) {
+    let cellname = "MemoryPool/controlled";
+    let cj = case_json("MP", csize, maxc, progs, sched);
+    cx.sum.cell_status(cellname, "M+S");
+    cx.sum.eval(cellname, &cj.to_string(), progs.iter().filter(|p| !p.is_empty()).count() >= 2);
+    let pool = match MemoryPool::new(PoolConfig::new(csize, maxc, 8)) { Ok(p) => p, Err(e) => { cx.sum.fail(cellname, None, cj, &format!("pool creation failed: {}", e)); return; } };
+    let cell = Arc::new(MpCell { pool, csize });
+    let smap = ScribbleMap { tail: 0, base: 0, bsize: 1, slots: 256 };
+    let c2 = cell.clone();
+    let mut queue: Option<Vec<u64>> = None;
+    let mut counters: Vec<u64> = vec![];
+    let mut inspect = |o: &RunOut| -> Vec<(Option<String>, String)> {
+        let mut f = vec![];
+        let owned: BTreeSet<u64> = o.held.iter().flatten().cloned().collect();
+        let st = c2.pool.stats();
+        let q: Option<Vec<u64>> = c2.pool.verif_free_chunks().map(|v| v.into_iter().map(|x| x as u64).collect());
+        match &q {
+            None => f.push((None, "the queue lock is still held at quiescence".into())),
+            Some(q) => {
+                let mut seen = BTreeSet::new();
+                for b in q {
+                    if !seen.insert(*b) { f.push((None, format!("chunk {:#x} is pooled twice", b))); }
+                    if owned.contains(b) { f.push((None, format!("chunk {:#x} is pooled while a thread owns it", b))); }
+                }
+                if q.len() > maxc { f.push((None, format!("{} chunks pooled, max_chunks is {}", q.len(), maxc))); }
+                let alive = (q.len() + owned.len()) as u64;
+                if st.allocated != alive * csize as u64 {
+                    f.push((None, format!("stats.allocated = {} bytes but {} chunks of {} bytes are alive ({} pooled, {} held) at quiescence", st.allocated, alive, csize, q.len(), owned.len())));
+                }
+            }
+        }
+        if st.alloc_count != o.alloc_calls || st.dealloc_count != o.frees {
+            f.push((None, format!("alloc_count={} dealloc_count={} after {} allocate calls and {} frees", st.alloc_count, st.dealloc_count, o.alloc_calls, o.frees)));
+        }
+        if st.pool_hits + st.pool_misses != st.alloc_count { f.push((None, format!("pool_hits {} + pool_misses {} != alloc_count {}", st.pool_hits, st.pool_misses, st.alloc_count))); }
+        counters = vec![st.allocated, st.alloc_count, st.dealloc_count, st.pool_hits, st.pool_misses, if q.is_none() { 1 } else { 0 }];
+        queue = q;
+        f
+    };
+    let scr = |_b: u64, _v: u64| -> u64 { 0 };
+    let out = controlled_run(cell.clone(), progs, sched, &smap, &mut NoWatch, &mut inspect, &scr);
+    cx.sum.dist_max("max_steps_controlled", out.eff.len() as u64);
+    if out.notes.iter().any(|&(_, s, v)| (s == vs::MP_ALLOC_LOCK || s == vs::MP_FREE_LOCK) && v == 0) { cx.sum.dist("mempool_runs_with_busy_lock"); }
+    if out.eff_site.iter().any(|s| *s == Some(vs::MP_FREE_DIRECT)) { cx.sum.dist("mempool_runs_with_direct_release"); }
+    for (cl, d) in &out.fails { cx.sum.fail(cellname, cl.as_deref(), cj.clone(), d); }
+    if out.aborted || out.eff.len() > 400 || counters.is_empty() { return; }
+    let queue = match queue { Some(q) => q, None => return };
+    if !cx.room("MP", force) { return; }
+    // chunks are named by serial numbers in order of creation (the turn that passes the miss point); the system
+    // allocator may return the address of a released chunk again, so the address -> serial map is updated
+    let mut next_serial = 0u64;
+    let mut pending: Vec<Option<u64>> = vec![None; progs.len()];
+    let mut cur: HashMap<u64, u64> = HashMap::new();
+    let mut sc: Vec<String> = vec![];
+    for (i, (t, c)) in out.eff.iter().enumerate() {
+        if out.eff_site[i] == Some(vs::MP_ALLOC_MISS) { pending[*t] = Some(next_serial); next_serial += 1; }
+        let cmd = match c {
+            Cm::Pop => "MAlloc".to_string(),
+            Cm::Push(b) => format!("MFree {}", cur.get(b).cloned().unwrap_or(u64::MAX)),
+            _ => "MNone".to_string(),
+        };
+        sc.push(format!("({}%nat, {})", t, cmd));
+        if let Some(addr) = out.eff_result[i] {
+            if let Some(ser) = pending[*t].take() { cur.insert(addr, ser); }
+        }
+    }
+    let ser = |a: &u64| -> u128 { cur.get(a).cloned().unwrap_or(u64::MAX) as u128 };
+    let notes: Vec<u128> = out.notes.iter().flat_map(|&(_, s, v)| vec![norm_site(s) as u128, v as u128]).collect();
+    let helds: Vec<String> = out.held.iter().map(|h| coq_n_list(h.iter().map(&ser))).collect();
+    let term = format!("XMP ({}, {}, {}%nat, [{}], {}, {}, [{}], {})",
+        csize, maxc, progs.len(), sc.join("; "), coq_n_list(notes), coq_n_list(queue.iter().map(&ser)), helds.join("; "),
+        coq_n_list(counters.iter().map(|&x| x as u128)));
+    let mut c2j = cj.clone();
+    c2j["impl_counters"] = json!(counters);
+    c2j["impl_pooled"] = json!(queue.len());
+    cx.shards.push(term, c2j);
+}
+
 fn run_case(cx: &mut Ctx, c: &Value, force: bool) {
     if c["cell"].as_str().map(|s| s.starts_with("stress")).unwrap_or(false) {
         stress_case(cx, c);
@@ -1003,6 +1103,7 @@ fn run_case(cx: &mut Ctx, c: &Value, force: bool) {
             let sizes = if sizes.is_empty() { vec![size] } else { sizes };
             run_fc(cx, &sizes, c["clear"].as_bool().unwrap_or(false), slots.clamp(1, 64), &progs, &sched, force)
         }
+        "MP" => run_mp(cx, size.clamp(1, 4096), slots.clamp(0, 64), &progs, &sched, force),
         "SP" => run_sp(cx, size.clamp(1, 8), c["preset"].as_u64().unwrap_or(0), &progs, &sched, force),
         _ => {}
     }
@@ -1639,6 +1740,22 @@ pub fn run(args: &Args) {
             }
         }
     }
+    // 2e. MemoryPool: a thread stalled while it holds the queue lock (others find it busy: fresh chunk / direct
+    //     release), a full pool, and the byte accounting of both
+    {
+        let p0 = vec![Op::Alloc, Op::Alloc, Op::Free(0), Op::Free(0), Op::Alloc, Op::Free(0)];
+        let p1 = vec![Op::Alloc, Op::Free(0), Op::Alloc, Op::Alloc, Op::Free(1), Op::Free(0)];
+        for &maxc in &[0usize, 1, 2] {
+            for k in 0..=3usize {
+                for pre in [2usize, 3, 4] {
+                    let mut sched: Vec<usize> = vec![WHOLE_OP; pre];
+                    sched.extend(std::iter::repeat(0).take(k));
+                    sched.extend(std::iter::repeat(WHOLE_OP + 1).take(p1.len()));
+                    run_mp(&mut cx, 64, maxc, &[p0.clone(), p1.clone()], &sched, false);
+                }
+            }
+        }
+    }
     // 3. random programs and schedules
     let nrand = if args.thorough { 6000 } else { 800 };
     for k in 0..nrand {
@@ -1648,7 +1765,11 @@ pub fn run(args: &Args) {
         let plen = rng.range(2, 9) as usize;
         let progs: Vec<Vec<Op>> = (0..n).map(|_| gen_prog(&mut rng, plen, false, slots)).collect();
         let sched = gen_sched(&mut rng, n, plen * 6 * n);
-        match k % 4 {
+        match k % 5 {
+            4 => {
+                let progs: Vec<Vec<Op>> = (0..n).map(|_| gen_prog(&mut rng, plen + 2, false, slots)).collect();
+                run_mp(&mut cx, *rng.pick(&[8usize, 64, 100]), *rng.pick(&[0usize, 1, 2, 3]), &progs, &sched, false)
+            }
             0 => run_lf(&mut cx, size, slots, k % 12 == 8, &progs, &sched, false),
             1 => run_fl(&mut cx, size.min(1000), slots, &progs, &sched, false),
             2 => {
